@@ -357,6 +357,27 @@ class C19(Profile):
         run.stats["ts_diff_checks"] += 1
 
 
+class C12(Profile):
+    prop = "C12"
+    name = "C12"
+    level = "fault_enumeration"
+    weights = dict(STRUCT_WEIGHTS, refused=38, data_write=2, data_append=2, data_resize=1)
+    owned = ("refusal_atomicity", "refusal_retry")
+    reopen_introspect = False
+    never_off = ("restart", "refused", "create_block", "create_array", "create_section")
+    fault_kinds = ("refused:*", "restart_rw", "restart_ro")
+
+    def tune_knobs(self, k, rng):
+        k["walk_every"] = P.pick(rng, [0, 5])
+        k["max_blocks"] = rng.randint(1, 3)
+        k["dtypes"] = ["float64", "int32", "str", "uint8", "bool"]
+        k["max_extent"] = 3
+        k["min_extent"] = 1
+        k["n_ops"] = rng.randint(10, 40)
+        k["cell_focus"] = P.pick(rng, [None, None, "create_", "set_", "data", "dimension", "append_dimension",
+                                       "link_list", "container", "property"])
+
+
 PROFILES = {}
 
 
@@ -377,3 +398,4 @@ register(C05())
 register(C01())
 register(C13())
 register(C19())
+register(C12())
